@@ -114,6 +114,10 @@ LAYOUTS = {
     "CW": {"rpdo": {1: [(0x6040, 16)]}, "tpdo": {1: [(0x6064, 32)]}},
     "SW": {"rpdo": {1: [(0x607A, 32)]}, "tpdo": {1: [(0x6041, 16)]}},
     "M": {"rpdo": {2: [(0x6060, 8)]}, "tpdo": {2: [(0x6061, 8)]}},
+    # RPDOs under "rpdo_off" are configured (mapping present) but NOT valid (COB-ID bit 31 set):
+    # the drive ignores frames on their ids, a master must not use them
+    "E": {"rpdo_off": {1: [(0x6040, 16)]}, "rpdo": {2: [(0x6040, 16), (0x6060, 8)]}, "tpdo": {1: [(0x6041, 16)]}},
+    "F": {"rpdo_off": {1: [(0x6040, 16)], 2: [(0x6060, 8), (0x6040, 16)]}, "rpdo": {}, "tpdo": {1: [(0x6041, 16)]}},
 }
 RPDO_BASE = [0x200, 0x300, 0x400, 0x500]
 TPDO_BASE = [0x180, 0x280, 0x380, 0x480]
@@ -355,6 +359,7 @@ class RefDrive402:
                 cob = bases[i] + self.node_id
                 if not entries:
                     cob |= 0x80000000
+                    entries = self.layout.get(kind + "_off", {}).get(i + 1)
                 st[(com + i, 0)] = b"\x05"
                 st[(com + i, 1)] = struct.pack("<L", cob)
                 st[(com + i, 2)] = bytes([tt])
@@ -425,6 +430,7 @@ class RefDrive402:
         self.sdo.port = self.port
         self.rpdo_ids = {RPDO_BASE[n - 1] + self.node_id: ent
                          for n, ent in self.layout["rpdo"].items()}
+        self.rpdo_off_ids = {RPDO_BASE[n - 1] + self.node_id for n in self.layout.get("rpdo_off", {})}
         return self.port
 
     def _on_frame(self, fr):
@@ -436,6 +442,9 @@ class RefDrive402:
             with self.lock:
                 self._on_rpdo(self.rpdo_ids[fr.can_id], fr.data)
                 self._emit_event_tpdos()
+        elif fr.can_id in getattr(self, "rpdo_off_ids", ()):
+            # ignored, like every frame a device is not configured to receive
+            self.bad_access.append(("frame-to-invalid-rpdo", fr.can_id, bytes(fr.data)))
 
     def _on_rpdo(self, entries, data, repeat=False):
         need = sum(b for _i, b in entries) // 8
